@@ -30,7 +30,7 @@ META = {
             "exhaustively explored extracted model admits; monitors (harness-side ownership map page -> holder, "
             "double free, conservation at quiescence, destructor drains, recycler count, no creation in strict "
             "mode, hang detection) check the property text directly on every run.",
-    "note": "25 theorems, all closed under the global context: c17_push_handle_routes_into_this_pool, c17_push_handle_spec, c17_pools_conservation, c17_lost_only_by_unbound_handle_dying, c17_pool_owns_its_objects, c17_single_owner, c17_conservation(+_at_quiescence), "
+    "note": "26 theorems, all closed under the global context: c17_pool_move_transfers_everything (model: moving a pool = transfer of its free list; the real move constructor/assignment = ConcurrentBoundedQueue::swap is exercised by the harness ops X/Y with monitors moved/nofresh/leak and exact comparison), c17_push_handle_routes_into_this_pool, c17_push_handle_spec, c17_pools_conservation, c17_lost_only_by_unbound_handle_dying, c17_pool_owns_its_objects, c17_single_owner, c17_conservation(+_at_quiescence), "
             "c17_dtor_returns_cache, c17_cache_bounded (EVERY reachable state) and _at_quiescence, "
             "c17_callbacks_advance_cursor, c17_segments_partition_the_claim, c17_claims_fit_the_cache, "
             "c17_compensates_when_starved, c17_strict_never_creates, c17_strict_bound, c17_blocked_pop_resumes, "
@@ -54,8 +54,8 @@ META = {
 
 MON_C = ["owner", "known", "dblfree", "freeheld", "conserve", "dtor", "cachecap"]
 MON_H = ["owner", "known", "count", "cachecap"]
-MON_P = ["owner", "recycle", "leak", "overflow", "nocreate", "seqbound"]
-MON_M = ["owner", "route", "recycle", "leak", "count", "twice", "nocreate"]
+MON_P = ["owner", "recycle", "leak", "overflow", "nocreate", "seqbound", "moved"]
+MON_M = ["owner", "route", "recycle", "leak", "count", "twice", "nocreate", "moved", "nofresh"]
 MON_B = ["owner", "known", "dblfree", "freeheld", "conserve", "dtor", "counting"]
 WHAT = {
     "owner": "a page/object handed out by allocate/pop is simultaneously held by another caller, cached twice or already "
@@ -75,6 +75,9 @@ WHAT = {
     "route": "push(h) into pool j did not put the object into pool j: a pool handed out / holds an object that was last "
              "pushed into another pool (or was never given to it)",
     "twice": "an object was destroyed twice",
+    "moved": "after moving a pool (move construction / assignment) the destination does not report the source's free "
+             "objects (or the source still reports some)",
+    "nofresh": "an auto-creating pool created a fresh object although it still caches objects",
     "seqbound": "single-threaded auto-create pool keeps more than capacity objects (overflow not destroyed)",
 }
 
@@ -174,8 +177,12 @@ def gen_multi_seq(rng):
     for _ in range(8 + rng.below(10)):
         r = rng.below(100)
         j = rng.below(k)
+        if r >= 92 and len(ops) > 1:
+            ops.append(rng.choice(["X%d", "Y%d"]) % j)           # move pool j: handles popped from it stay bound to the old object
+            hands = [(o, b, True if b == j else st) for o, b, st in hands]
+            continue
         if hands and r < 45:
-            o, b = hands[0]
+            o, b, stale = hands[0]
             c = rng.below(10)
             if c < 5 or (c < 8 and b is None):
                 if modes[j] == 1 and len(q[j]) >= cap:
@@ -185,7 +192,7 @@ def gen_multi_seq(rng):
                 if not (modes[j] == 2 and cap <= len(q[j])):
                     q[j].append(o)
             elif c < 8:
-                if modes[b] == 1 and len(q[b]) >= cap:
+                if stale or (modes[b] == 1 and len(q[b]) >= cap):
                     continue
                 ops.append("D")
                 hands.pop(0)
@@ -196,20 +203,20 @@ def gen_multi_seq(rng):
                 hands.append(hands.pop(0))
         elif r < 60:
             ops.append("N")
-            hands.append((fresh, None))
+            hands.append((fresh, None, False))
             fresh += 1
         elif r < 80:
             if q[j]:
                 ops.append("O%d" % j)
-                hands.append((q[j].pop(0), j))
+                hands.append((q[j].pop(0), j, False))
             elif modes[j] == 2:
                 ops.append("O%d" % j)
-                hands.append((fresh, j))
+                hands.append((fresh, j, False))
                 fresh += 1
         else:
             ops.append("T%d" % j)
             if q[j]:
-                hands.append((q[j].pop(0), j))
+                hands.append((q[j].pop(0), j, False))
     if not ops:
         ops = ["N"]
     return cap, int("".join(str(m) for m in modes)), ",".join(ops)
@@ -280,6 +287,9 @@ FIXED = [
     ("S", 2, "N,R,N,R|G,R|G,D", True),
     ("S", 1, "N,R,G,D|G,R,G,R|G,D", False),
     ("S", 2, "N,R|G,R,T,R|T,D,G,R", False),
+    ("P", 2, "O,O,U,U,X,O,O,O,U,U,U,X,T,T,O", False),      # single thread: the pool is moved while it caches objects
+    ("S", 2, "N,R,N,R,X,G,G,T,R,R,X,T,R,X,G", False),
+    ("S", 4, "N,R,X,N,R,N,R,X,G,G,G,T", False),
 ]
 FIXED_M = [
     # (capacity, modes, program): handle / Deleter routing between pools (1 = strict, 2 = auto-create)
@@ -290,6 +300,11 @@ FIXED_M = [
     (1, 11, "N,H0|O0,H1,O1,D"),
     (2, 111, "N,H0,N,H0|O0,H1,O1,H2|O2,D,O0,H2"),
     (2, 12, "N,H1,O1,H0,O0,U1|T0,D,T1,H0"),
+    # moving a whole pool while it holds 0 / 1 / k free objects and has outstanding handles, then using the destination
+    (2, 11, "X0,N,H0,X0,T0,H0,N,H0,Y0,T0,T0,T0,U0,U0,X0,O0,O0,T0"),
+    (2, 12, "O1,O1,H1,H1,X1,O1,O1,O1,U1,Y1,T1,H1,H1,X1,T1,T1"),
+    (4, 21, "O0,O0,O0,U0,U0,Y0,O0,H0,X0,O0,O0,O0,O0,N,H1,N,H1,O0,X1,O1,H1,Y1,O1,O1,T1"),
+    (1, 22, "O0,U0,X0,O0,U0,Y0,O0,D,O1,H0,X0,X1,O0,O1"),
 ]
 
 
